@@ -47,7 +47,7 @@ impl Property for C18 {
         "generated ANM / STD / MSG / END / pre-TH10 ECL sources (variable-size instructions incl. strings and the furigana quirk, difficulty-replicated statements, gotos, loops, if/else, counted loops, labels at block edges) with injected unique-valued locals and global consts; compile with debug info, read the written file back and check, per exported script: one debug instruction per written instruction, each offset = the sum of the sizes of the instructions before it (harness's own size model), end-offset = the script's length, every label offset is an instruction boundary, every user label carries the time in effect where it was written (generator's record), every local's register id occurs in the instruction that stores the local's unique initial value, every const has the value the harness computed and that value is what was written where the const is used. non-trivial = a script with >= 2 instructions of different sizes or a label, local or const"
     }
     fn tape_len(&self, tier: Tier) -> usize { tier.pick(350, 500) }
-    fn cases(&self, tier: Tier) -> u32 { tier.pick(60_000, 1_500_000) }
+    fn cases(&self, tier: Tier) -> u32 { tier.pick(300_000, 4_000_000) }
     fn required_labels(&self, _tier: Tier) -> Vec<&'static str> { vec!["fmt:anm", "fmt:std", "fmt:msg", "fmt:end", "fmt:ecl", "scripts-checked", "user-label-time", "local-checked", "const-checked", "const-use-checked", "varying-sizes", "timeline"] }
     fn max_discard_fraction(&self) -> f64 { 0.35 }
 
